@@ -5,6 +5,8 @@ import (
 	"fmt"
 	"math/rand"
 	"strings"
+	"sync"
+	"sync/atomic"
 	"testing"
 	"time"
 
@@ -12,6 +14,8 @@ import (
 	"google.golang.org/grpc/status"
 	"google.golang.org/protobuf/encoding/protojson"
 	"google.golang.org/protobuf/proto"
+
+	"go.6river.tech/mmmbbb/actions"
 
 	"verif/harness/evd"
 	"verif/harness/reqgen"
@@ -21,18 +25,66 @@ import (
 // TestC16state: the second half of C16 - a request that is answered with an
 // error leaves topics, subscriptions, messages, deliveries and snapshots
 // unchanged. The same generated requests as in the real-binary part are sent
-// to the real handlers in-process, with no background service running.
+// to the real handlers in-process, with no background service running (two
+// standing listeners for "something was modified" stand in for the services
+// that subscribe to the handlers' commit notifications).
 func TestC16state(t *testing.T) {
 	cfg := evd.Env()
 	col := evd.New("C16", cfg)
 	defer col.Flush()
 	var errs, oks, panics int64
+	var listenerWakes atomic.Int64
 	rig.RunCase(t, cfg.CaseSeed("C16state", cfg.Shard), rig.Opts{Tick: time.Microsecond}, func(e *rig.Env) {
 		api := reqgen.ServerAPI{Pub: e.Pub, Sub: e.Sub}
 		w, err := reqgen.Setup(e.Ctx, api)
 		if err != nil {
 			t.Fatalf("setup: %v", err)
 		}
+		// standing listeners, as the server's own background services are (the push
+		// supervisor listens for "any subscription modified", a mirror for "any topic
+		// modified"): woken, they look at the database for a while and only then
+		// re-arm - requests keep arriving meanwhile
+		lctx, lcancel := context.WithCancel(e.Ctx)
+		defer lcancel()
+		lr := rand.New(rand.NewSource(cfg.Seed*17 + int64(cfg.Shard)))
+		var lmu sync.Mutex
+		scan := func() {
+			lmu.Lock()
+			d := time.Duration(lr.Intn(40)) * time.Millisecond
+			lmu.Unlock()
+			select {
+			case <-time.After(d):
+			case <-lctx.Done():
+			}
+		}
+		go func() {
+			var aw actions.AnySubModifiedNotifier
+			for lctx.Err() == nil {
+				actions.CancelAnySubModifiedAwaiter(aw)
+				aw = actions.AnySubModifiedAwaiter()
+				select {
+				case <-aw:
+					listenerWakes.Add(1)
+					scan()
+				case <-lctx.Done():
+				}
+			}
+			actions.CancelAnySubModifiedAwaiter(aw)
+		}()
+		go func() {
+			var aw actions.AnyTopicModifiedNotifier
+			for lctx.Err() == nil {
+				actions.CancelAnyTopicModifiedAwaiter(aw)
+				aw = actions.AnyTopicModifiedAwaiter()
+				select {
+				case <-aw:
+					listenerWakes.Add(1)
+					scan()
+				case <-lctx.Done():
+				}
+			}
+			actions.CancelAnyTopicModifiedAwaiter(aw)
+		}()
 		r := rand.New(rand.NewSource(cfg.Seed*31 + int64(cfg.Shard)))
 		reqs := reqgen.Unary(w)
 		reqs = append(reqs, reqgen.Random(w, r, cfg.N(600, 30000))...)
@@ -90,4 +142,5 @@ func TestC16state(t *testing.T) {
 	col.Add("relevant_events", errs)
 	col.Add("ev_error_replies_checked_for_unchanged_state", errs)
 	col.Add("ev_ok_replies", oks)
+	col.Add("ev_wake_ups_of_standing_modification_listeners", listenerWakes.Load())
 }
